@@ -119,6 +119,9 @@ pub fn generate(prop: Prop, seed: u64, run: u64, thorough: bool) -> RunSpec {
     if prop == Prop::C14 {
         return gen::generate_c14(&mut rng);
     }
+    if thorough && matches!(prop, Prop::C02 | Prop::C03) && run % 4096 == 4095 {
+        return gen::generate_growth(&mut rng);
+    }
     let mut prof = props::profile(prop, thorough);
     // one run in 512 (quick) / 32 (thorough) of C06/C08/C09/C12 samples a state and enumerate a family of
     // continuations from it (see variants.rs)
